@@ -108,7 +108,7 @@ def random_cut_case(rng, max_heavy, kinds=('$', '><'), max_parts=6, mol_kw=None,
         # so its spelling has nodes that close several rings at once
         part = {n: i for i, n in enumerate(g.nodes)}
     nparts = max(part.values()) + 1
-    case = M.build_case(rng, g, part, kinds=kinds, render_opts=render_opts or {'explicit_single': rng.choice([0.0, 0.1]), 'desc_after_branch': rng.choice([0.0, 0.5, 0.9])})
+    case = M.build_case(rng, g, part, kinds=kinds, render_opts=render_opts or {'explicit_single': rng.choice([0.0, 0.1]), 'desc_after_branch': rng.choice([0.0, 0.5, 0.9]), 'desc_in_parens': rng.choice([0.0, 0.0, 0.3])})
     if case is None:
         return None
     ast, pre = M.base_to_ast(rng, case['base'])
